@@ -255,8 +255,9 @@ Proof.
                       [repeat split | intros pk0 Hpk0; discriminate | intros p0 Hp0; discriminate | intros id0 x0 Hx0; discriminate]).
     + (* connack *)
       destruct (handle_incoming_connack5_eff s0 code receive_max topic_alias_max)
-        as [[_ He] | [_ [s2 [He [Hp [Hr [Hc _]]]]]]]; rewrite He in Hn; cbn [out2_5] in Hn; inversion Hn; subst s' rep.
+        as [[_ He] | [[_ [_ He]] | [_ [_ [s2 [He [Hp [Hr [Hc _]]]]]]]]]; rewrite He in Hn; cbn [out2_5] in Hn; inversion Hn; subst s' rep.
       { apply Hsame; [apply slots_eq5_refl | intros pk0 Hpk0; discriminate | intros p1 Hp1; discriminate | intros id0 x0 Hx0; discriminate]. }
+      { apply Hsame; [apply alias_taken5_slots | intros pk0 Hpk0; discriminate | intros p1 Hp1; discriminate | intros id0 x0 Hx0; discriminate]. }
       assert (Hb2 : forall i, busy5 s2 i = busy5 s i) by (intros i; rewrite <- Hbusy; unfold busy5; rewrite Hp, Hr; reflexivity).
       split; [intros pk0 Hpk0; discriminate|]. split; [intros id0 n [H | H]; discriminate|]. split; [intros p0 Hp0; discriminate|].
       split; [intros id0 x H; discriminate|].
@@ -404,7 +405,7 @@ Definition op_low5 (s : state5) (o : op5) : bool :=
   | Out5 (R5Publish p) => match q_qos p with Q0 => true | _ => q_pkid p <=? s5_max s end
   | Out5 (R5PubRel i) => i <=? s5_max s
   | Inc5 (P5ConnAck _ code (Some rm) _) =>
-      negb (code =? 0) || forallb (fun i => i <=? N.min rm (s5_max_limit s)) (held_ids5 s)
+      negb (code =? 0) || (rm =? 0) || forallb (fun i => i <=? N.min rm (s5_max_limit s)) (held_ids5 s)
   | _ => true
   end.
 
@@ -447,12 +448,14 @@ Proof.
     rewrite outcome5_inc in Hn. cbn [handle_incoming_packet5] in Hn.
     destruct (handle_incoming_connack5_eff (push5 s (Ev5In (P5ConnAck session_present code receive_max topic_alias_max)))
                 code receive_max topic_alias_max)
-      as [[Hc He] | [Hc [s2 [He [Hp [Hr [_ [_ [_ [_ [_ [_ Hm]]]]]]]]]]]];
+      as [[Hc He] | [[Hc [Hz He]] | [Hc [Hnz [s2 [He [Hp [Hr [_ [_ [_ [_ [_ [_ Hm]]]]]]]]]]]]]];
       rewrite He in Hn; cbn [out2_5] in Hn; inversion Hn; subst s' rep.
     + intros i Hb. apply L. exact Hb.
+    + intros i Hb. destruct topic_alias_max; apply L; exact Hb.
     + intros i Hb'. assert (Hb : busy5 s i = true) by (unfold busy5 in *; rewrite Hp, Hr in Hb'; exact Hb').
       rewrite Hm. sproj5. destruct receive_max as [m|]; [|apply L; exact Hb].
       cbn [op_low5] in Hlow. subst code. rewrite N.eqb_refl in Hlow. cbn [negb orb] in Hlow.
+      destruct (N.eqb_spec m 0) as [Em | Em]; [congruence|]. cbn [orb] in Hlow.
       rewrite forallb_forall in Hlow. specialize (Hlow i (busy5_in_held_ids s i I Hb)). lia.
   - intros i Hb'. rewrite (W7 eq_refl). destruct (Hold i Hb') as [Hb | Hle]; [apply L; exact Hb|exact Hle].
 Qed.
@@ -590,13 +593,20 @@ Example low5_needs_connack_clause :
   nth 3 (trace5 (init5 3 false) h) None = Some (P5PubRel 2 0).
 Proof. vm_compute. repeat split. Qed.
 
-(** the contract clause [1 <= receive_max] of [op_ok5] is needed (candidate finding: neither the
-    codec nor [handle_incoming_connack] refuses receive-maximum 0): the allocator never wraps
-    again — SUBSCRIBE ids run past the configured limit 2, and every QoS>0 publish is refused *)
-Example receive_max_zero_breaks_ids :
-  let h := [Inc5 (P5ConnAck true 0 (Some 0) None); Out5 (R5Subscribe 1); Out5 (R5Subscribe 1); Out5 (R5Subscribe 1); pq5 Q1 1] in
-  contract5 (init5 2 false) h = false /\
-  trace5 (init5 2 false) h = [None; Some (P5Subscribe 1 1); Some (P5Subscribe 2 1); Some (P5Subscribe 3 1); None] /\
-  (exists s s', run5 (init5 2 false) (firstn 4 h) = Some s /\ s5_max s = 0 /\
-     step5 s (pq5 Q1 1) = Err (s', E5Unsolicited 4)).
-Proof. vm_compute. repeat split. eexists. eexists. repeat split. Qed.
+(** F37 (fixed by commit b2fc5b9; the behaviour before it: Client/Findings5.v [f37_refuted]): a
+    CONNACK announcing receive-maximum 0 is refused — from ANY state: an error, and the state is
+    what it was but for the Incoming notification and the topic-alias maximum, which the code takes
+    over before the test.  The limit and the allocator are untouched, so no contract clause about
+    the broker is needed any more. *)
+Theorem receive_max_zero_rejected5 s sp tam :
+  step5 s (Inc5 (P5ConnAck sp 0 (Some 0) tam))
+  = Err (alias_taken5 (push5 s (Ev5In (P5ConnAck sp 0 (Some 0) tam))) tam, E5ConnFail 130).
+Proof. reflexivity. Qed.
+
+Example receive_max_zero_rejected5_run :
+  let h := [Inc5 (P5ConnAck true 0 (Some 0) (Some 7)); Out5 (R5Subscribe 1); Out5 (R5Subscribe 1); Out5 (R5Subscribe 1); pq5 Q1 1] in
+  contract5 (init5 2 false) h = true /\ lowc5 (init5 2 false) h = true /\
+  trace5 (init5 2 false) h = [None; Some (P5Subscribe 1 1); Some (P5Subscribe 2 1); Some (P5Subscribe 1 1);
+                              Some (P5Publish (mkPub5 Q1 2 1 1 None))] /\
+  option_map (fun s => (s5_max s, s5_alias_max s)) (run5 (init5 2 false) h) = Some (2, 7).
+Proof. vm_compute. repeat split. Qed.
